@@ -530,6 +530,40 @@ class Machine:
             return
         for d in self.diff_snap(snap, snap2)[:3]:
             self.viol.append(f"{what}: live tree vs rebuild: {d}")
+        # (i') the figures behind the default 'surface' order: a node's
+        # centrality is the mean of its children's (leaves: the network's own,
+        # which no transformation changes), and asking for the surface path
+        # twice gives the same path
+        def surface():
+            leaf_c = tree.get_hypergraph().simple_centrality()
+            exp = {leaf: leaf_c[i] for i, leaf in enumerate(tree.gen_leaves())}
+            bad = None
+            for p_, l_, r_ in tree.traverse("dfs"):
+                exp[p_] = (exp[l_] + exp[r_]) / 2
+            # (asked from the root downwards, the way an ordered traversal does)
+            for p_ in sorted((q for q in exp if len(q) > 1), key=len, reverse=True):
+                c_ = tree.get_centrality(p_)
+                if c_ != exp[p_] and bad is None:
+                    bad = (sorted(p_), c_, exp[p_])
+            got1 = tree.get_path_surface()
+            got2 = tree.get_path_surface()
+            return bad, got1, got2
+
+        if tree.N >= 2 and tree.is_complete():
+            ok, r_ = guarded(surface)
+            if not ok:
+                self.viol.append(f"{what}: get_path_surface / get_centrality raised {r_}")
+            else:
+                bad, got1, got2 = r_
+                if got1 != got2:
+                    self.viol.append(
+                        f"{what}: get_path_surface() asked twice in a row gives {got1} and then {got2}"
+                    )
+                elif bad is not None:
+                    self.viol.append(
+                        f"{what}: node {bad[0]} reports centrality {bad[1]}, the mean of its children's is {bad[2]} "
+                        "(a value left over from before the tree was restructured)"
+                    )
         # (ii) independent model
         removed = [(ix, p) for ix, _, _, p in snap["sliced"]]
         cr = ref.CostRef(self.inputs, self.output, self.sizes, removed)
